@@ -71,10 +71,10 @@ OBLIGATIONS = {
             "c11_due_after_one_timeout", "ownerCont_meas", "c06_owner_steps_decrease", "c06_measure_wf",
             "linv_step", "progress_any", "c06_can_always_answer",
             "c06_internal_steps_decrease", "c06_term_measure_wf", "c06_no_infinite_internal_run", "c06_rest_waits",
-            "keep_step", "owner_step_result", "FairRun.stuck_contra", "FairRun.c06_fair_run_answers"],
+            "keep_step", "owner_step_result", "FairRun.stuck_contra", "FairRun.c06_fair_run_answers", "FairRun.c06_fair_run_exactly_once"],
     "C09": ["c09_succeeded_settles", "c09_free_settles", "c09_pending_completed_settles", "c09_stale_pending_frees",
             "c09_pending_pays", "c09_from_wait", "c09_pinned_wedge"],
-    "C14": ["c14_frame", "c14_own_state_only", "c14_frozen", "c14_no_pooling", "lift_run", "c14_progress_despite_frozen", "grun_reach", "c14_progress_despite_frozen_global", "c01_global", "c02_global", "c05_global", "c08_global", "c04_global", "c11_global", "rh_wf", "c14_no_infinite_internal_run", "GFairRun.c14_fair_run_answers"],
+    "C14": ["c14_frame", "c14_own_state_only", "c14_frozen", "c14_no_pooling", "lift_run", "c14_progress_despite_frozen", "grun_reach", "c14_progress_despite_frozen_global", "c01_global", "c02_global", "c05_global", "c08_global", "c04_global", "c11_global", "rh_wf", "c14_no_infinite_internal_run", "GFairRun.c14_fair_run_answers", "GFairRun.c14_fair_run_exactly_once"],
     "C19": ["c19_iff", "c19_refuses_deltas", "c19_faithful", "c19_retry_cap"],
     "C20": ["c20_max", "c20_monotone", "c20_poll_catches_up", "c20_serve_truthful", "c20_timer_armed", "c20_timer_fires"],
 }
